@@ -102,4 +102,17 @@ def boolOr (l : List (Option Bool)) : Option Bool :=
   | [] => none
   | bs => some (bs.any id)
 
+/-- TopN(n) as the code guarantees it, stated over the list of shards only: the candidates are the
+ids that are among the best `n` of at least one SHARD; the answer is the best `n` candidates by
+their exact total over all shards, with exact totals. (Whether the candidates contain the globally
+best `n` ids is C12's business: pass 1 is a heuristic.) -/
+def topN (n : Nat) (shards : List (List Pair)) : List Pair :=
+  let cands := sortPairs (pairs (shards.map (topShard n)))
+  if cands.isEmpty then cands
+  else trimN n (sortPairs (pairs (shards.map (topShardIds (sortedKeys cands)))))
+
+/-- The globally best `n` rows by exact total (what an exact TopN would return). -/
+def topNExact (n : Nat) (shards : List (List Pair)) : List Pair :=
+  trimN n (sortPairs ((pairs shards).filter (fun p => p.count > 0)))
+
 end PV.C17.Spec
